@@ -450,6 +450,45 @@ fn run(args: &Args, rep: &mut Report) {
         prop_par("valid-descriptions", args.seed, tier.pick(60_000, 10_000_000), arb_description, sbody, |s| json!(s)));
     rep.add("long-descriptions", false, "15..1027 words (lengths around powers of two): attribute words with up to two colours anywhere and a deciding last word (attribute, negation, colour, unknown word)",
         prop_par("long-descriptions", args.seed, tier.pick(8_000, 400_000), arb_long, sbody, |s| json!(s)));
+    // words far longer than any keyword: a word is judged as a whole, whatever its length
+    {
+        let lens = [11usize, 13, 15, 16, 17, 18, 31, 32, 33, 63, 64, 65, 255, 256, 257, 1025];
+        let mut words: Vec<String> = vec![];
+        for &k in &lens {
+            for n in ["0", "7", "15", "16", "255", "256", "25", "1"] {
+                let z = "0".repeat(k.saturating_sub(n.len()));
+                words.push(format!("{z}{n}")); // zero-padded number of total length k
+                for tail in ["x", "abc", "7", "é", "-", "#"] {
+                    words.push(format!("{z}{n}{tail}"));
+                }
+            }
+            for kw in ["red", "bold", "nobold", "no-ul", "normal", "-1", "strike"] {
+                words.push(format!("{kw}{}", "x".repeat(k)));
+                words.push(format!("{}{kw}", "x".repeat(k)));
+                words.push(format!("{kw}{}", kw.repeat(k / kw.len().max(1))));
+            }
+            words.push(format!("#{}", "f".repeat(k)));
+            words.push(format!("#{}g", "a".repeat(k)));
+        }
+        let mut acc = Acc::new();
+        'lw: for w in &words {
+            for ctx in ["{}", "red {}", "bold {} ul", "{} blue", "red blue {}"] {
+                let text = ctx.replace("{}", w);
+                acc.eval();
+                match rt::guarded(|| str_body(&text, &mut acc)) {
+                    Ok(_) => {
+                        acc.nontrivial_distinct();
+                    }
+                    Err(m) => {
+                        acc.fail("long-words", json!(text), m);
+                        break 'lw;
+                    }
+                }
+            }
+        }
+        acc.sample(|| json!(format!("{}7abc", "0".repeat(15))));
+        rep.add("long-words", true, &format!("{} words of 11..1025 bytes (zero-padded numbers with and without a trailing character, keywords with long tails or heads, repeated keywords, over-long '#' words) x 5 contexts", words.len()), vec![acc]);
+    }
     rep.add("compound-words", false, "2..4 valid pieces (negation prefixes, attributes, colour names, numbers) glued together without white space, alone and next to valid words",
         prop_par("compound-words", args.seed, tier.pick(40_000, 2_000_000), arb_compound, sbody, |s| json!(s)));
     rep.add("single-edit-mutations", false, "one insert/delete/replace at a character boundary of a valid description",
